@@ -8,6 +8,8 @@ package operations
 //@ define opsIdle(o ref) bool = !driveHeld && !mutexHeld[addr(o.diskOperationLock)]
 
 //@ func (*Operations).Delete
+//@   property C17
+//@   at call SignHeader#1 assert [pax-format] arg_hdr.Format == 4
 //@   property C02
 //@   ghostset opDeletes := old(opDeletes) + 1
 //@   ensures [counted] opDeletes == old(opDeletes) + 1
@@ -23,6 +25,8 @@ package operations
 //@   ensures [ops-free] !mutexHeld[addr(o.diskOperationLock)]
 
 //@ func (*Operations).Move
+//@   property C17
+//@   at call SignHeader#1 assert [pax-format] arg_hdr.Format == 4
 //@   property C02
 //@   ghostset opMoves := old(opMoves) + 1
 //@   ensures [counted] opMoves == old(opMoves) + 1
@@ -56,6 +60,8 @@ package operations
 //@   ensures [ops-free] !mutexHeld[addr(o.diskOperationLock)]
 
 //@ func (*Operations).archive
+//@   property C17
+//@   at call SignHeader#1 assert [pax-format] arg_hdr.Format == 4
 //@   property C03
 //@   at call AddSuffix#1 assert [suffix-added-with-size-record] has(hdr.PAXRecords, "STFS.UncompressedSize")
 //@   property C01
@@ -73,6 +79,9 @@ package operations
 //@   ensures [drive-free] !driveHeld
 
 //@ func (*Operations).Update
+//@   property C17
+//@   at call SignHeader#1 assert [pax-format] arg_hdr.Format == 4
+//@   at call SignHeader#2 assert [pax-format-meta] arg_hdr.Format == 4
 //@   property C03
 //@   at call AddSuffix#1 assert [suffix-added-with-size-record] has(hdr.PAXRecords, "STFS.UncompressedSize")
 //@   property C01
